@@ -11,11 +11,6 @@ import (
 	"sort"
 	"strings"
 
-	"github.com/mimecast/dtail/internal/clients/handlers"
-	"github.com/mimecast/dtail/internal/color/brush"
-	"github.com/mimecast/dtail/internal/mapr"
-	"github.com/mimecast/dtail/internal/source"
-	"github.com/mimecast/dtail/verifharness/internal/dt"
 	"github.com/mimecast/dtail/verifharness/internal/vlib"
 )
 
@@ -27,9 +22,6 @@ func stripSGR(s string) string { return sgr.ReplaceAllString(s, "") }
 
 func init() {
 	Drivers["C16"] = c16
-	Children["c16pure"] = c16PureChild
-	Children["c16handler"] = c16HandlerChild
-	Children["c16table"] = c16TableChild
 }
 
 type c16PureResult struct {
@@ -105,112 +97,6 @@ func c16GenMessage(rng *rand.Rand, partialEsc bool) string {
 	return m
 }
 
-func c16PureChild(args []string) int {
-	dir := args[0]
-	dt.Init(source.Client, "none", "none", "error", false)
-	return vlib.BatchMain(dir, func(i int, raw json.RawMessage) interface{} {
-		var msgs []string
-		json.Unmarshal(raw, &msgs)
-		res := c16PureResult{}
-		for _, hexm := range msgs {
-			var m string
-			fmt.Sscanf(hexm, "%x", &m)
-			if hexm == "" {
-				m = ""
-			}
-			// the culprit of a process-fatal panic is identified by this file
-			os.WriteFile(filepath.Join(dir, "current"), []byte(hexm), 0644)
-			colored := brush.Colorfy(m)
-			res.N++
-			got, want := stripSGR(colored), m
-			if strings.Contains(m, "\x1b") {
-				want = stripSGR(m)
-			}
-			if got != want && len(res.Mismatches) < 5 {
-				res.Mismatches = append(res.Mismatches, hexm)
-				res.Rendered = append(res.Rendered, fmt.Sprintf("%q", colored))
-			}
-		}
-		return res
-	})
-}
-
-// c16HandlerChild: vcheck child c16handler <streamfile> <kind> <color:0|1>
-// feeds the stream into a real client handler; whatever it prints goes to stdout.
-func c16HandlerChild(args []string) int {
-	stream, err := os.ReadFile(args[0])
-	if err != nil {
-		return 2
-	}
-	kind := args[1]
-	dt.Init(source.Client, "none", "stdout", "error", args[2] == "0")
-	var h handlers.Handler
-	switch kind {
-	case "client":
-		h = handlers.NewClientHandler("srv1")
-	case "mapr":
-		q, err := mapr.NewQuery("select count($line),last(x) from STATS group by host")
-		if err != nil {
-			return 2
-		}
-		h = handlers.NewMaprHandler("srv1", q, mapr.NewGlobalGroupSet())
-	case "health":
-		h = handlers.NewHealthHandler("srv1")
-	}
-	sizes := []int{1, 5, 3, 64, 2, 4096, 17, 32768}
-	off, i := 0, 0
-	for off < len(stream) {
-		n := sizes[i%len(sizes)]
-		i++
-		if off+n > len(stream) {
-			n = len(stream) - off
-		}
-		h.Write(stream[off : off+n])
-		off += n
-	}
-	os.Stdout.Sync()
-	return 0
-}
-
-// c16TableChild: vcheck child c16table <casefile> <color:0|1>
-// A mapreduce client handler receives aggregate messages over several report
-// intervals; after each interval the cumulative result table is printed the
-// way dmap prints it.
-func c16TableChild(args []string) int {
-	raw, err := os.ReadFile(args[0])
-	if err != nil {
-		return 2
-	}
-	var c c16TableCase
-	json.Unmarshal(raw, &c)
-	dt.Init(source.Client, "none", "stdout", "error", args[1] == "0")
-	q, err := mapr.NewQuery(c.Query)
-	if err != nil {
-		return 2
-	}
-	global := mapr.NewGlobalGroupSet()
-	hs := map[string]handlers.Handler{}
-	for _, iv := range c.Intervals {
-		for _, m := range iv {
-			srv := strings.SplitN(m, "|", 3)[1]
-			h := hs[srv]
-			if h == nil {
-				h = handlers.NewMaprHandler(srv, q, global)
-				hs[srv] = h
-			}
-			h.Write(append([]byte(m), 0xAC))
-		}
-		res, _, err := global.Result(q, c.RowsLimit)
-		if err != nil {
-			fmt.Println("ERROR", err)
-		}
-		fmt.Print(res)
-		fmt.Println("=====")
-	}
-	os.Stdout.Sync()
-	return 0
-}
-
 type c16TableCase struct {
 	Query     string     `json:"query"`
 	Intervals [][]string `json:"intervals"`
@@ -218,6 +104,10 @@ type c16TableCase struct {
 }
 
 func c16Tables(r *vlib.Run) {
+	if _, ok := r.WorkerBin("c16table"); !ok {
+		r.Inconclusive("worker-unavailable")
+		return
+	}
 	n := r.N(60, 1500)
 	rng := r.Rng("tables")
 	dir := r.Dir("c16tables")
@@ -258,7 +148,7 @@ func c16Tables(r *vlib.Run) {
 		os.WriteFile(p, b, 0644)
 		defer os.Remove(p)
 		run := func(color string) *vlib.Result {
-			return vlib.RunCmd(vlib.Cmd{Path: r.Bin("vcheck"), Args: []string{"child", "c16table", p, color}, Dir: dir})
+			return vlib.RunCmd(vlib.Cmd{Path: c16Bin(r), Args: []string{"child", "c16table", p, color}, Dir: dir})
 		}
 		col, plain := run("1"), run("0")
 		r.Eval(fmt.Sprintf("table|%x", hashStrings([]string{string(b)})))
@@ -395,7 +285,16 @@ func c16(r *vlib.Run) int {
 	return nPure / 2
 }
 
+func c16Bin(r *vlib.Run) string {
+	b, _ := r.WorkerBin("c16handler")
+	return b
+}
+
 func c16Handlers(r *vlib.Run) {
+	if _, ok := r.WorkerBin("c16handler"); !ok {
+		r.Inconclusive("worker-unavailable")
+		return
+	}
 	n := r.N(250, 8000)
 	rng := r.Rng("handler")
 	dir := r.Dir("c16streams")
@@ -409,7 +308,7 @@ func c16Handlers(r *vlib.Run) {
 		defer os.Remove(p)
 		kind := []string{"client", "client", "mapr", "health"}[i%4]
 		run := func(color string) *vlib.Result {
-			return vlib.RunCmd(vlib.Cmd{Path: r.Bin("vcheck"), Args: []string{"child", "c16handler", p, kind, color}, Dir: dir})
+			return vlib.RunCmd(vlib.Cmd{Path: c16Bin(r), Args: []string{"child", "c16handler", p, kind, color}, Dir: dir})
 		}
 		col, plain := run("1"), run("0")
 		r.Eval(fmt.Sprintf("stream|%s|%x", kind, hashStrings([]string{string(streams[i])})))
